@@ -13,6 +13,7 @@ import (
 	"fmt"
 	"maps"
 	"slices"
+	"strings"
 
 	"github.com/cedar-policy/cedar-go"
 	"github.com/cedar-policy/cedar-go/internal/consts"
@@ -163,8 +164,13 @@ func Authorize(ctx context.Context, policies cedar.PolicyIterator, entities type
 	for k, v := range request.Variables {
 		be.Variables = append(be.Variables, variableItem{Key: k, Values: v})
 	}
+	// Break ties by name: the variables come out of a map, and the enumeration order decides the callback order and
+	// how far each policy is partially evaluated before it fails, i.e. the text of its error.
 	slices.SortFunc(be.Variables, func(a, b variableItem) int {
-		return len(a.Values) - len(b.Values)
+		if c := len(a.Values) - len(b.Values); c != 0 {
+			return c
+		}
+		return strings.Compare(string(a.Key), string(b.Key))
 	})
 
 	// resolve ignores if no variables exist
